@@ -47,6 +47,7 @@ from fortls.helper_functions import (
     get_paren_level,
     get_paren_substring,
     map_keywords,
+    read_parameter_value,
     separate_def_list,
     strip_line_label,
     strip_strings,
@@ -1467,9 +1468,8 @@ class FortranFile:
                         #  the value in hover
                         if new_var.is_parameter():
                             _, col = find_word_in_line(line, name)
-                            match = FRegex.PARAMETER_VAL.match(line[col:])
-                            if match:
-                                var = " ".join(match.group(1).strip().split())
+                            var = read_parameter_value(line[col:])
+                            if var:
                                 new_var.set_parameter_val(var)
 
                         # Check if the "variable" is external and if so cycle
